@@ -637,6 +637,515 @@ class NamesStream(Stream):
         return pl["what"] + pl["name"]
 
 
+# {{{ dispatch histories: several mapper classes, ONE set of node classes, a chosen order
+
+HIST_ARGS = [((), {}), (EXTRA_ARGS, EXTRA_KW), ((1, 2), {})]
+
+
+def build_world(classes):
+    """classes: [[name, how, own|None, [parent indices]]] (parents first; [] = Expression).
+    Returns the list of node classes; a second base that Python refuses (MRO conflict) is dropped."""
+    warnings.simplefilter("ignore")
+    out = []
+    for name, how, own, parents in classes:
+        bases = tuple(out[i] for i in parents) or (p.Expression,)
+        body = {}
+        if own is not None:
+            body["mapper_method"] = own
+        if how == "legacy":
+            body["__getinitargs__"] = lambda self: ()
+            body["init_arg_names"] = ()
+        else:
+            body["__annotations__"] = {}
+
+        def make(bases, body=body, how=how, name=name):
+            cls = type(name, bases, dict(body))
+            return cls if how == "legacy" else p.expr_dataclass()(cls)
+        try:
+            cls = make(bases)
+        except TypeError:
+            cls = make(bases[:1])
+        out.append(cls)
+    return out
+
+
+def build_mappers(mappers):
+    """mappers: [{"base": "Mapper"|"CachedMapper", "parent": index|-1, "handlers": [...]}] ->
+    (mapper classes, the set of handler names each implements — inherited ones included)"""
+    from pymbolic.mapper import CachedMapper, Mapper
+    out, impl = [], []
+    for i, m in enumerate(mappers):
+        body = {}
+        for h in m["handlers"]:
+            body[h] = (lambda name: lambda self, expr, *a, **k: ("handler", name, expr, a, k))(h)
+        body["handle_unsupported_expression"] = lambda self, expr, *a, **k: ("unsupported", None, expr, a, k)
+        if m["parent"] >= 0:
+            base = out[m["parent"]]
+            have = set(impl[m["parent"]])
+        else:
+            base = CachedMapper if m["base"] == "CachedMapper" else Mapper
+            have = set()
+        out.append(type(f"M{i}", (base,), body))
+        impl.append(have | set(m["handlers"]))
+    return out, impl
+
+
+def mro_names(cls):
+    """`mapper_method` as each class of the MRO has it (attribute lookup), most derived first"""
+    return [getattr(c, "mapper_method", None) for c in cls.__mro__ if c is not object]
+
+
+def nearest(names, implemented, variant):
+    """the property's words: own class's handler name, else the nearest ancestor's the mapper
+    implements, else the unsupported hook (`rec_fallback` starts at the first ancestor)"""
+    for m in names[(1 if variant == "fallback" else 0):]:
+        if m and m in implemented:
+            return ("handler", m)
+    return ("unsupported", None)
+
+
+class DispatchHistoryStream(Stream):
+    """Dispatch is a function of (mapper, node class) alone.  Inside ONE process, in a chosen
+    ORDER, several mapper classes (handler subsets, plain / cached, also inheriting from each
+    other) are applied — through `__call__`, `rec` and `rec_fallback`, on fresh and on re-used
+    instances, with different extra arguments — to instances of the SAME node classes
+    (hierarchies of depth >= 3, decorated and legacy, trees and diamonds, shared handler names,
+    equal class names).  Every single dispatch is compared with an independent walk over the
+    node class's MRO; extra arguments must arrive unchanged.
+
+    (The `dispatch` stream builds fresh node classes and a fresh mapper class for every case, so
+    nothing a dispatch routine remembers per node type / per mapper class / per instance is ever
+    looked up a second time there.)"""
+    name = "dispatch-history"
+    has_model = False
+
+    # ---- generation
+    def _exhaustive(self, rng, tier):
+        """linear chains NodeA <- NodeB <- NodeC (<- NodeD): all ordered pairs (thorough: also
+        triples at depth 3) of handler subsets, first mapper, second mapper, first again"""
+        names = ["NodeA", "NodeB", "NodeC", "NodeD"]
+        hows = ["decorated", "legacy"]
+        for depth in (3, 4):
+            cand = [f"map_node_{c}" for c in "abcd"[:depth]]
+            subsets = [list(c) for r in range(depth + 1) for c in itertools.combinations(cand, r)]
+            decls = [("decorated",) * depth]
+            all_decls = list(itertools.product(hows, repeat=depth))
+            if tier == "quick":
+                decls.append(rng.choice(all_decls[1:]))
+            else:
+                decls = all_decls
+            tuples = list(itertools.product(subsets, repeat=2))
+            if depth == 4 and tier == "quick":
+                tuples = rng.sample(tuples, 60)
+            if depth == 3 and tier != "quick":
+                tuples += list(itertools.product(subsets, repeat=3))
+            for decl in decls:
+                # a legacy class needs a name of its own to be a dispatch target of its own
+                classes = [[names[i], decl[i], (f"map_node_{'abcd'[i]}" if decl[i] == "legacy" else None),
+                            ([i - 1] if i else [])] for i in range(depth)]
+                for tup in tuples:
+                    for variant, base in (("call", "Mapper"), ("fallback", "Mapper"),
+                                          ("call", "CachedMapper"), ("rec", "Mapper")):
+                        if tier == "quick" and (variant, base) != ("call", "Mapper") \
+                                and rng.random() < 0.6:
+                            continue
+                        mappers = [{"base": base, "parent": -1, "handlers": hs} for hs in tup]
+                        order = list(range(len(tup))) + [0]
+                        steps = [[mi, ci, variant, False, 1] for mi in order for ci in range(depth)]
+                        yield {"classes": classes, "mappers": mappers, "steps": steps}
+
+    def _random(self, rng):
+        pool = ["NodeA", "NodeB", "NodeC", "NodeD", "LeafE", "MidNodeF"]
+        n = rng.randint(3, 6)
+        classes = []
+        for i in range(n):
+            name = pool[i] if rng.random() < 0.8 else rng.choice(pool[:n])
+            how = rng.choice(["decorated", "decorated", "legacy"])
+            r = rng.random()
+            own = None if r < 0.65 else (f"map_own{i}" if r < 0.9 else "map_shared")
+            if i < 3:
+                parents = [i - 1] if i else []
+            else:
+                parents = [rng.choice([i - 1, i - 1, rng.randrange(i)])]
+                if rng.random() < 0.15:
+                    second = rng.randrange(i)
+                    if second not in parents:
+                        parents.append(second)
+            classes.append([name, how, own, parents])
+        cand = sorted({m for k in build_world(classes) for m in mro_names(k) if m} | {"map_unrelated"})
+        mappers = []
+        for i in range(rng.randint(2, 4)):
+            dens = rng.choice([0.25, 0.5, 0.75])
+            mappers.append({"base": "CachedMapper" if rng.random() < 0.25 else "Mapper",
+                            "parent": rng.randrange(i) if i and rng.random() < 0.3 else -1,
+                            "handlers": [c for c in cand if rng.random() < dens]})
+        steps = []
+        for _ in range(rng.randint(8, 30)):
+            steps.append([rng.randrange(len(mappers)), rng.randrange(n),
+                          rng.choice(["call", "call", "rec", "fallback"]), rng.random() < 0.3,
+                          rng.randrange(len(HIST_ARGS))])
+        return {"classes": classes, "mappers": mappers, "steps": steps}
+
+    def cases(self, rng, tier):
+        yield from self._exhaustive(rng, tier)
+        for _ in range(300 if tier == "quick" else 6000):
+            yield self._random(rng)
+
+    # ---- running
+    def _run(self, pl):
+        """-> [(step index, got, want, names, implemented)]; `got` = (kind, handler, same object?,
+        args ok?) or ("raised", repr)"""
+        world = build_world(pl["classes"])
+        nodes = [k() for k in world]
+        mclasses, impl = build_mappers(pl["mappers"])
+        inst = [k() for k in mclasses]
+        out = []
+        for si, (mi, ci, variant, fresh, argsel) in enumerate(pl["steps"]):
+            m = mclasses[mi]() if fresh else inst[mi]
+            args, kwargs = HIST_ARGS[argsel]
+            node = nodes[ci]
+            fn = {"call": m, "rec": m.rec, "fallback": m.rec_fallback}[variant]
+            try:
+                r = fn(node, *args, **kwargs)
+                got = (r[0], r[1], r[2] is node, r[3] == tuple(args) and r[4] == kwargs)
+            except Exception as ex:     # noqa: BLE001
+                got = ("raised", f"{type(ex).__name__}: {str(ex)[:80]}", True, True)
+            names = mro_names(world[ci])
+            out.append((si, got, nearest(names, impl[mi], variant), names, sorted(impl[mi])))
+        return out
+
+    def run_impl(self, pl):
+        try:
+            res = self._run(pl)
+        except Exception as ex:     # noqa: BLE001
+            return err_sx(ex)
+        return "(" + " ".join(q(str(g[1])) if g[0] == "handler" else g[0] for _i, g, *_ in res) + ")"
+
+    def oracle(self, pl):
+        try:
+            res = self._run(pl)
+        except Exception as ex:     # noqa: BLE001
+            return Failure("dispatch-history-crash", repr(ex), pl)
+        for si, got, want, names, implemented in res:
+            mi, ci, variant, fresh, argsel = pl["steps"][si]
+            if got[:2] != want:
+                # the same single dispatch in a world of its own (new node classes, new mapper
+                # class, nothing before it): right there = the failure is one of ORDER / sharing
+                alone = {"classes": pl["classes"], "mappers": pl["mappers"],
+                         "steps": [[mi, ci, variant, False, argsel]]}
+                try:
+                    a = self._run(alone)[0]
+                    isolated_ok = a[1][:2] == a[2]
+                except Exception:     # noqa: BLE001
+                    isolated_ok = False
+                kind = "dispatch-depends-on-history" if isolated_ok else "dispatch-nearest-ancestor"
+                return Failure(f"{kind}:{variant}",
+                               f"step {si}: mapper M{mi} implementing {implemented} on "
+                               f"{pl['classes'][ci][0]} (mapper_method along the MRO: {names}) via "
+                               f"{variant}: got {got[:2]}, the definition gives {want}"
+                               + ("; the same dispatch alone, on fresh classes, is right"
+                                  if isolated_ok else ""), pl)
+            if not got[2]:
+                return Failure("dispatch-other-object", f"step {si}: handler received another object", pl)
+            if not got[3]:
+                return Failure("dispatch-args-changed", f"step {si}: extra arguments changed", pl)
+        return None
+
+    def shrink(self, pl):
+        steps = pl["steps"]
+        for i in range(len(steps)):
+            yield {**pl, "steps": steps[:i] + steps[i + 1:]}
+        for mi, m in enumerate(pl["mappers"]):
+            for h in m["handlers"]:
+                ms = [dict(x) for x in pl["mappers"]]
+                ms[mi]["handlers"] = [x for x in m["handlers"] if x != h]
+                yield {**pl, "mappers": ms}
+        # drop the last class / mapper when nothing refers to it
+        nc, nm = len(pl["classes"]), len(pl["mappers"])
+        if nc > 1 and all(s[1] != nc - 1 for s in steps):
+            yield {**pl, "classes": pl["classes"][:-1]}
+        if nm > 1 and all(s[0] != nm - 1 for s in steps) \
+                and all(m["parent"] != nm - 1 for m in pl["mappers"]):
+            yield {**pl, "mappers": pl["mappers"][:-1]}
+        for i, s_ in enumerate(steps):
+            if s_[3] or s_[4]:
+                yield {**pl, "steps": steps[:i] + [[s_[0], s_[1], s_[2], False, 0]] + steps[i + 1:]}
+
+    def nontrivial_key(self, pl, model, impl):
+        import json
+        return json.dumps(pl, sort_keys=True) if len({s[0] for s in pl["steps"]}) > 1 else None
+
+    def stats(self, pl, mo, io, acc):
+        acc["dispatches"] = acc.get("dispatches", 0) + len(pl["steps"])
+        acc["handler"] = acc.get("handler", 0) + io.count('"')// 2
+        acc["unsupported"] = acc.get("unsupported", 0) + io.count("unsupported")
+        seq = [(s[0], s[1]) for s in pl["steps"]]
+        # a node class dispatched by one mapper class and LATER by another one
+        seen, cross = {}, 0
+        for mi, ci in seq:
+            if seen.get(ci, mi) != mi:
+                cross += 1
+            seen[ci] = mi
+        acc["cross_mapper_revisits"] = acc.get("cross_mapper_revisits", 0) + cross
+        d = max((len(mro_names_of(pl["classes"], i)) for i in range(len(pl["classes"]))), default=0)
+        acc["max_depth"] = max(acc.get("max_depth", 0), d)
+
+
+def mro_names_of(classes, i):
+    """ancestors of class i along first parents (depth of the hierarchy, for the statistics)"""
+    out = [i]
+    while classes[out[-1]][3]:
+        out.append(classes[out[-1]][3][0])
+    return out
+
+# }}}
+
+
+# {{{ collector histories: one mapper INSTANCE, a sequence of trees sharing subtrees
+
+COLLECTOR_KINDS = ["dep", "cdep", "vars", "cached-vars", "cse-vars", "cached-cse-vars"]
+DEP_FLAGS = [dict(subscripts=s_, lookups=l_, calls=c_, cses=e_)
+             for s_ in (True, False) for l_ in (True, False)
+             for c_ in (True, False, "descend_args") for e_ in (False, True)]
+
+
+def make_collector(kind, flags):
+    from pymbolic.mapper import CachedCollector, CachedMapper, Collector, CSECachingMapperMixin
+    from pymbolic.mapper.dependency import CachedDependencyMapper, DependencyMapper
+    if kind in ("dep", "cdep"):
+        cls = DependencyMapper if kind == "dep" else CachedDependencyMapper
+        if flags.get("composite") is not None:
+            return cls(composite_leaves=flags["composite"], include_cses=flags["cses"])
+        return cls(include_subscripts=flags["subscripts"], include_lookups=flags["lookups"],
+                   include_calls=flags["calls"], include_cses=flags["cses"])
+
+    def map_variable(self, expr, *args, **kwargs):
+        return {expr}
+    body = {"map_variable": map_variable}
+    if kind == "vars":
+        return type("Vars", (Collector,), body)()
+    if kind == "cached-vars":
+        return type("CachedVars", (CachedCollector,), body)()
+    body["map_common_subexpression_uncached"] = Collector.map_common_subexpression
+    if kind == "cse-vars":
+        return type("CseVars", (CSECachingMapperMixin, Collector), body)()
+    if kind == "cached-cse-vars":
+        def init(self):
+            CachedMapper.__init__(self)
+        body["__init__"] = init
+        return type("CachedCseVars", (CachedMapper, CSECachingMapperMixin, Collector), body)()
+    raise ValueError(kind)
+
+
+def collector_reference(kind, flags, e):
+    """what the children contribute, by a scan that involves no mapper: the dependency mappers
+    collect the outermost selected composites and the variables outside them, the user-written
+    collectors every variable occurrence; inner nodes contribute nothing of their own"""
+    if kind in ("dep", "cdep"):
+        if flags.get("composite") is not None:
+            c = flags["composite"]
+            return scan.dependencies(e, c, c, c, flags["cses"])
+        return scan.dependencies(e, flags["subscripts"], flags["lookups"], flags["calls"], flags["cses"])
+    return {t for t in scan.subterms(e) if isinstance(t, p.Variable)}
+
+
+class CollectorHistoryStream(Stream):
+    """The combine / collector family on HISTORIES: one mapper instance (Collector subclasses
+    with and without `CachedMapper`, with `CSECachingMapperMixin`, `DependencyMapper` /
+    `CachedDependencyMapper` under every flag set) is given a sequence of trees that share
+    subtrees and `CommonSubexpression` nodes (shared as objects).  Every answer is compared with
+    (a) an independent fold over the children ("the result of every child, nothing more, nothing
+    less"), (b) the answer of a fresh instance; the returned objects are kept and compared again
+    with what they were when the history is over (a later call must not change an earlier
+    result)."""
+    name = "collector-history"
+    has_model = False
+
+    def cases(self, rng, tier):
+        n = 320 if tier == "quick" else 6000
+        g = ExprGen(rng, cse=0.25, floats=0.0, foreign=False, malformed=0.0)
+        for i in range(n):
+            kind = COLLECTOR_KINDS[i % len(COLLECTOR_KINDS)]
+            flags = None
+            if kind in ("dep", "cdep"):
+                flags = dict(rng.choice(DEP_FLAGS), composite=None)
+                if rng.random() < 0.15:
+                    flags["composite"] = rng.random() < 0.5
+            # the shared pieces: small trees, about half of them wrapped as common subexpressions
+            pool = []
+            for _ in range(rng.randint(2, 4)):
+                t = g.gen(rng.choice(["num", "any", "int"]), rng.randint(0, 2))
+                if rng.random() < 0.55 and isinstance(t, p.Expression):
+                    t = p.CommonSubexpression(t, rng.choice([None, "pre"]))
+                pool.append(t)
+            trees = []
+            for _ in range(rng.randint(3, 9)):
+                r = rng.random()
+                if r < 0.3:
+                    t = rng.choice(pool)
+                elif r < 0.75:
+                    parts = [rng.choice(pool) for _ in range(rng.randint(1, 2))]
+                    parts += [g.gen("num", rng.randint(0, 1)) for _ in range(rng.randint(1, 2))]
+                    if rng.random() < 0.5:
+                        rng.shuffle(parts)
+                    t = self._wrap(rng, parts)
+                elif r < 0.9 and trees:
+                    t = self._wrap(rng, [rng.choice(trees), rng.choice(pool)])
+                else:
+                    t = g.gen(rng.choice(["num", "any", "bool"]), rng.randint(1, 3))
+                trees.append(t)
+            try:
+                sx = [dumps(expr_to_sx(t)) for t in trees]
+            except Exception:     # noqa: BLE001
+                continue
+            steps = [[j, (1 if rng.random() < 0.1 else 0)] for j in range(len(sx))]
+            yield {"kind": kind, "flags": flags, "trees": sx, "steps": steps}
+        # the plain patterns, for every kind: a shared CSE first / last among siblings, then alone
+        x, y, z, w = (p.Variable(v) for v in "xyzw")
+        cse = p.CommonSubexpression(p.Power(x, 2), "sq")
+        sub = p.Product((x, p.Subscript(w, 1)))
+        for shared in (cse, sub):
+            fixed = [p.Sum((shared, y, z)), shared, p.Product((w, shared)), shared,
+                     p.If(p.Comparison(shared, "<", 0), p.Sum((shared, 1)), p.Max((w, shared))),
+                     (shared, p.Sum((z, 3))), shared, p.Power(shared, y), p.Quotient(shared, z), shared]
+            sx = [dumps(expr_to_sx(t)) for t in fixed]
+            for kind in COLLECTOR_KINDS:
+                fls = [None]
+                if kind in ("dep", "cdep"):
+                    fls = [dict(f, composite=None) for f in DEP_FLAGS[::(5 if tier == "quick" else 1)]]
+                for fl in fls:
+                    yield {"kind": kind, "flags": fl, "trees": sx,
+                           "steps": [[j, 0] for j in range(len(sx))]}
+
+    @staticmethod
+    def _wrap(rng, parts):
+        k = rng.choice(["Sum", "Product", "Max", "tuple", "If", "Power", "Quotient", "Comparison",
+                        "LogicalAnd", "Call"])
+        if k == "If" and len(parts) >= 3:
+            return p.If(parts[0], parts[1], parts[2])
+        if k in ("Power", "Quotient", "Comparison") and len(parts) >= 2:
+            a, b = parts[0], parts[1]
+            rest = parts[2:]
+            t = (p.Power(a, b) if k == "Power" else p.Quotient(a, b) if k == "Quotient"
+                 else p.Comparison(a, "<", b))
+            return p.Sum((t, *rest)) if rest else t
+        if k == "tuple":
+            return tuple(parts)
+        if k == "Call":
+            return p.Call(p.Variable("f"), tuple(parts))
+        cls = {"Sum": p.Sum, "Product": p.Product, "Max": p.Max, "LogicalAnd": p.LogicalAnd}.get(k, p.Sum)
+        return cls(tuple(parts))
+
+    def _trees(self, pl):
+        from ..sexp import hashcons
+        memo = {}
+        return [hashcons(sx_to_expr(loads(t)), memo) for t in pl["trees"]]
+
+    def _run(self, pl):
+        """-> (per step: (tree index, args, got | None, snapshot, fresh | None, want), end check)"""
+        trees = self._trees(pl)
+        m = make_collector(pl["kind"], pl["flags"])
+        rows, kept = [], []
+        for ti, argsel in pl["steps"]:
+            t = trees[ti]
+            args = (7,) if argsel else ()
+            try:
+                fresh = make_collector(pl["kind"], pl["flags"])(t, *args)
+            except RecursionError:
+                raise
+            except Exception:     # noqa: BLE001
+                fresh = None
+            try:
+                got = m(t, *args)
+            except RecursionError:
+                raise
+            except Exception as ex:     # noqa: BLE001
+                rows.append((ti, args, ("raised", repr(ex)[:100]), None, fresh, None))
+                continue
+            snap = set(got) if isinstance(got, (set, frozenset)) else None
+            kept.append((len(rows), got, snap))
+            rows.append((ti, args, got, snap, fresh, collector_reference(pl["kind"], pl["flags"], t)))
+        changed = [i for i, got, snap in kept if snap is not None and set(got) != snap]
+        return trees, rows, changed
+
+    @staticmethod
+    def _show(s_):
+        return sorted(str(x) for x in s_)
+
+    def run_impl(self, pl):
+        try:
+            _t, rows, _c = self._run(pl)
+        except RecursionError:
+            raise
+        except Exception as ex:     # noqa: BLE001
+            return err_sx(ex)
+        out = []
+        for _ti, _a, got, snap, _f, _w in rows:
+            out.append("raised" if snap is None else
+                       "(" + " ".join(sorted(dumps(expr_to_sx(d)) for d in snap)) + ")")
+        return "(" + " ".join(out) + ")"
+
+    def oracle(self, pl):
+        trees, rows, changed = self._run(pl)
+        kind = pl["kind"]
+        for si, (ti, args, got, snap, fresh, want) in enumerate(rows):
+            if snap is None:
+                if isinstance(got, tuple) and got and got[0] == "raised":
+                    if fresh is not None:
+                        return Failure(f"collector-history-raises:{kind}",
+                                       f"step {si}: {got[1]} on {trees[ti]!r}; a fresh instance answers", pl)
+                    continue
+                return Failure(f"collector-result-not-a-set:{kind}", f"step {si}: {type(got).__name__}", pl)
+            if fresh is None:
+                continue        # a node type the collector does not handle: reported by raising
+            if snap != want:
+                how = "extra" if snap - want else "missing"
+                if fresh == want:
+                    return Failure(f"collector-history-{how}:{kind}",
+                                   f"step {si}: {trees[ti]!r} -> {self._show(snap)}; the children "
+                                   f"contribute {self._show(want)} (and a fresh instance says so)", pl)
+                return Failure(f"collector-fold-{how}:{kind}",
+                               f"step {si}: {trees[ti]!r} -> {self._show(snap)}; the children contribute "
+                               f"{self._show(want)}", pl)
+            if fresh != snap:
+                return Failure(f"collector-fresh-differs:{kind}",
+                               f"step {si}: fresh instance {self._show(fresh)}, history {self._show(snap)}", pl)
+        if changed:
+            si = changed[0]
+            return Failure(f"collector-earlier-result-changed:{kind}",
+                           f"the set returned at step {si} for {trees[rows[si][0]]!r} was "
+                           f"{self._show(rows[si][3])} and is {self._show(rows[si][2])} after the "
+                           "later calls", pl)
+        return None
+
+    def shrink(self, pl):
+        steps = pl["steps"]
+        for i in range(len(steps)):
+            yield {**pl, "steps": steps[:i] + steps[i + 1:]}
+        used = sorted({s_[0] for s_ in steps})
+        if len(used) < len(pl["trees"]):
+            yield {**pl, "trees": [pl["trees"][ti] for ti in used],
+                   "steps": [[used.index(ti), a] for ti, a in steps]}
+        for ti in used:
+            for s_ in sx_shrinks(loads(pl["trees"][ti])):
+                ts = list(pl["trees"])
+                ts[ti] = dumps(s_)
+                yield {**pl, "trees": ts}
+
+    def nontrivial_key(self, pl, model, impl):
+        import json
+        return json.dumps([pl["kind"], pl["flags"], pl["trees"], pl["steps"]], sort_keys=True) \
+            if impl.count("(") > 2 else None
+
+    def stats(self, pl, mo, io, acc):
+        acc[pl["kind"]] = acc.get(pl["kind"], 0) + 1
+        acc["calls"] = acc.get("calls", 0) + len(pl["steps"])
+        acc["raised"] = acc.get("raised", 0) + io.count("raised")
+        acc["cse_trees"] = acc.get("cse_trees", 0) + sum(1 for t in pl["trees"] if "(CSE" in t)
+
+# }}}
+
+
 def probes():
     """defects repaired by fix: commits + the default unsupported hook raises"""
     from pymbolic.mapper import Mapper, UnsupportedExpressionError
@@ -673,16 +1182,25 @@ def extract(ctx=None):
     return extract_traversal(ctx)
 
 
+def extract_dispatch(ctx=None):
+    """T-gen: `Mapper.__call__` / `Mapper.rec_fallback` statement by statement, `rec = __call__`,
+    and the body of `Collector.combine` / `CombineMapper.combine` (lean/PV/Generated/Dispatch.lean)"""
+    from extract.dispatch import extract_dispatch as ex
+    return ex(ctx)
+
+
 PROP = Prop(
     id="C04",
     title="Mapper dispatch and the stock traversals reach every node correctly",
     lean_targets=["PV.Properties.C04"],
-    extractors=[extract],
+    extractors=[extract, extract_dispatch],
     streams=[WalkStream(), CombineStream(), DispatchStream(), NamesStream(), FieldsStream(),
-             CallbackStream()],
+             CallbackStream(), DispatchHistoryStream(), CollectorHistoryStream()],
     probes=[probes],
     trusted_base=["Lean 4.33 kernel; axioms propext, Classical.choice, Quot.sound only",
                   "harness/props/c04.py (instrumented mapper subclasses, dynamic class hierarchies)",
-                  "extract/traversal.py (ast reader of the map_* handlers; unknown shapes are errors)"],
+                  "extract/traversal.py (ast reader of the map_* handlers; unknown shapes are errors)",
+                  "extract/dispatch.py (ast reader of Mapper.__call__ / rec_fallback / combine; the "
+                  "meaning of its statement language = lean/PV/Model/DispatchTable.lean `dRun`)"],
     design_ref="DESIGN.md §4 C04",
 )
